@@ -182,7 +182,27 @@ func handmadePage(t *tape.Tape, doc *document.MultiPage) error {
 	cs := w.Alloc()
 	w.Put(cs, pdf.Array{pdf.Name("CalGray"), pdf.Dict{"WhitePoint": pdf.Array{pdf.Real(0.95), pdf.Integer(1), pdf.Real(1.09)}}})
 	fnt := w.Alloc()
-	w.Put(fnt, pdf.Dict{"Type": pdf.Name("Font"), "Subtype": pdf.Name("Type1"), "BaseFont": pdf.Name("Courier")})
+	fontDict := pdf.Dict{"Type": pdf.Name("Font"), "Subtype": pdf.Name("Type1"), "BaseFont": pdf.Name("Courier")}
+	if t.Bool("rich.hm.tounicode", 1, 2) {
+		// a ToUnicode CMap written by hand (uncompressed), optionally hostile:
+		// wide multi-byte ranges on a simple font, huge counts, odd code lengths
+		body := tape.Pick(t, "rich.hm.cmap",
+			"1 beginbfrange\n<41> <5A> <0041>\nendbfrange\n",
+			"1 beginbfrange\n<00000000> <FFFFFFFF> <0041>\nendbfrange\n",
+			"1 beginbfrange\n<0000000000000000> <FFFFFFFFFFFFFFFF> <0041>\nendbfrange\n",
+			"2 beginbfrange\n<0000> <FFFF> <0020>\n<000000> <FFFFFF> [<0041>]\nendbfrange\n",
+			"1 beginbfchar\n<41> <D83DDE00>\nendbfchar\n100000 beginbfrange\n<00> <FF> <0000>\nendbfrange\n",
+			"1 beginbfrange\n<FF> <00> <0041>\nendbfrange\n")
+		csr := tape.Pick(t, "rich.hm.csr", "<00> <FF>", "<0000> <FFFF>", "<00000000> <FFFFFFFF>", "<00> <FF>\n<0000> <FFFF>")
+		cm := "/CIDInit /ProcSet findresource begin\n12 dict begin\nbegincmap\n/CMapName /Adobe-Identity-UCS def\n/CMapType 2 def\n1 begincodespacerange\n" + csr + "\nendcodespacerange\n" + body + "endcmap\nCMapName currentdict /CMap defineresource pop\nend\nend\n"
+		tu := w.Alloc()
+		w.Put(tu, pdf.NewStream(pdf.Dict{}, []byte(cm)))
+		fontDict["ToUnicode"] = tu
+		fontDict["FirstChar"] = pdf.Integer(65)
+		fontDict["LastChar"] = pdf.Integer(66)
+		fontDict["Widths"] = pdf.Array{pdf.Integer(600), pdf.Integer(600)}
+	}
+	w.Put(fnt, fontDict)
 	gs1, gs2 := w.Alloc(), w.Alloc()
 	w.Put(gs1, pdf.Dict{"Type": pdf.Name("ExtGState"), "SMask": smask, "LW": pdf.Integer(2)})
 	w.Put(gs2, pdf.Dict{"Type": pdf.Name("ExtGState"), "SMask": smask, "LW": pdf.Integer(3)})
